@@ -274,12 +274,19 @@ func urlPeriodDefault(w *World, tb *TB, uf *ssa.Function) (bool, string) {
 	if !ok {
 		return false, pt.String()
 	}
+	return defaultedInt(tb, uf, x, "field(Period; param("+FuncName(uf)+"#0))", "Period", "30")
+}
+
+// defaultedInt: the integer term x is the field fieldT with exactly the value 0 replaced by def. Two
+// equivalent shapes are recognised: the gated form (x == 0 ? def : x, after normalising helper calls and
+// identity accessors) and the in-place form (a store of def into the local copy's field guarded by field == 0).
+func defaultedInt(tb *TB, uf *ssa.Function, x *Term, fieldT, fieldName_, def string) (bool, string) {
 	isField := func(t *Term) bool {
 		n := 0
 		for _, a := range t.Alts() {
 			switch {
 			case a.Op == "cycle":
-			case a.String() == "field(Period; param("+FuncName(uf)+"#0))":
+			case a.String() == fieldT:
 				n++
 			default:
 				return false
@@ -307,27 +314,28 @@ func urlPeriodDefault(w *World, tb *TB, uf *ssa.Function) (bool, string) {
 			if cond.Sym == "!=" {
 				th, el = el, th
 			}
-			if v != nil && isField(v) && th.IsConst() && th.Sym == "30" && isField(el) {
+			if v != nil && isField(v) && th.IsConst() && th.Sym == def && isField(el) {
 				return true, ""
 			}
 		}
 		return false, nx.String()
 	}
 	// in-place form
-	has30, hasF := false, false
-	for _, a := range x.Alts() {
+	hasD, hasF := false, false
+	for _, a := range strip(nx).Alts() {
+		a = strip(a)
 		switch {
-		case a.IsConst() && a.Sym == "30":
-			has30 = true
-		case a.String() == "field(Period; param("+FuncName(uf)+"#0))":
+		case a.IsConst() && a.Sym == def:
+			hasD = true
+		case a.String() == fieldT:
 			hasF = true
 		case a.Op == "cycle":
 		default:
-			return false, x.String()
+			return false, nx.String()
 		}
 	}
-	if !has30 || !hasF {
-		return false, x.String()
+	if !hasD || !hasF {
+		return false, nx.String()
 	}
 	okStore, n := true, 0
 	EachInstr(uf, func(in ssa.Instruction) {
@@ -335,7 +343,7 @@ func urlPeriodDefault(w *World, tb *TB, uf *ssa.Function) (bool, string) {
 		if !isSt {
 			return
 		}
-		if fa, isFA := st.Addr.(*ssa.FieldAddr); isFA && fieldName(fa.X.Type(), fa.Field) == "Period" {
+		if fa, isFA := st.Addr.(*ssa.FieldAddr); isFA && fieldName(fa.X.Type(), fa.Field) == fieldName_ {
 			n++
 			k, isK := constInt(st.Val)
 			guarded := false
@@ -344,13 +352,13 @@ func urlPeriodDefault(w *World, tb *TB, uf *ssa.Function) (bool, string) {
 					guarded = true
 				}
 			}
-			if !isK || k.Int64() != 30 || !guarded {
+			if !isK || k.String() != def || !guarded {
 				okStore = false
 			}
 		}
 	})
 	if n == 0 || !okStore {
-		return false, x.String() + " (default store not guarded by Period == 0)"
+		return false, nx.String() + " (default store not guarded by " + fieldName_ + " == 0)"
 	}
 	return true, ""
 }
